@@ -566,6 +566,12 @@ func (p *RPCCompiler) buildProtoMessageWithContext(inputMessage Message, rpcMess
 		return nil, fmt.Errorf("context field not found in message %s", inputMessage.Name)
 	}
 
+	for _, field := range contextRPCField.Message.Fields {
+		if contextPathCrossesOneOf(context[0].Plan, field.ResolvePath) {
+			return nil, fmt.Errorf("unable to resolve context field %s of %s: field resolvers below a union or interface value are not supported", field.Name, rpcMessage.Name)
+		}
+	}
+
 	// TODO handle multiple contexts (resolver requires another resolver)
 	contextData := p.resolveContextData(context[0], contextRPCField)
 	if len(contextData) == 0 {
@@ -734,6 +740,29 @@ func (p *RPCCompiler) buildRequiredFieldsMessage(inputMessage Message, rpcMessag
 	return rootMessage, nil
 }
 
+// contextPathCrossesOneOf reports whether path leads through the value of a union or interface in the response
+// of the parent call. Such a value is wrapped in a oneof message and the path does not tell in which member it
+// continues, so the context data (and the position to merge the result into) cannot be determined.
+func contextPathCrossesOneOf(parent *RPCCall, path ast.Path) bool {
+	if parent == nil {
+		return false
+	}
+
+	message := &parent.Response
+	for i := 0; i < len(path)-1; i++ {
+		field := message.Fields.ByName(strings.TrimLeft(path[i].FieldName.String(), "@"))
+		if field == nil || field.Message == nil {
+			return false
+		}
+
+		if message = field.Message; message.IsOneOf() {
+			return true
+		}
+	}
+
+	return false
+}
+
 func (p *RPCCompiler) resolveContextData(context FetchItem, contextField *RPCField) []map[string]protoref.Value {
 	if context.ServiceCall == nil || context.ServiceCall.Output == nil {
 		return []map[string]protoref.Value{}
@@ -893,7 +922,12 @@ func (p *RPCCompiler) resolveUnderlyingList(msg protoref.Message, fieldName stri
 		nestingLevel++
 	}
 
-	listFieldValue := msg.Get(msg.Descriptor().Fields().ByName(protoref.Name(fieldName[nestingLevel:])))
+	fd := msg.Descriptor().Fields().ByName(protoref.Name(fieldName[nestingLevel:]))
+	if fd == nil {
+		return nil
+	}
+
+	listFieldValue := msg.Get(fd)
 	if !listFieldValue.IsValid() {
 		return nil
 	}
